@@ -249,14 +249,20 @@ func newL2WorldOpt(r *core.Run, p *l2Profile, fixedBridge uint64, bases []string
 		w.opts.SecpVals = true
 		w.m.SecpVals = true
 		if r.Chance(1, 2) {
-			w.valPool = append([]string{"secp0"}, w.valPool...)
+			w.valPool = append([]string{"secp0", "secp1"}, w.valPool...)
 		} else {
-			w.valPool = append(w.valPool, "secp0")
+			w.valPool = append(w.valPool, "secp0", "secp1")
 		}
 	}
 	gen := opchildtypes.DefaultGenesisState()
 	hookGas := []uint64{0, 60_000, 1_000_000, 3_000_000}[r.Weighted([]int{1, 1, 6, 2})]
 	gen.Params = opchildtypes.NewParams(w.admin, w.executors, uint32(ng+r.Intn(4)), uint32(r.Intn(5)), sdk.NewDecCoins(), nil, hookGas)
+	if p.WhaleFees && r.Chance(1, 2) {
+		// (fee scenarios) the genesis file already lists fee-exempt accounts, in the order somebody typed them
+		for i, n := 0, 2+r.Intn(3); i < n; i++ {
+			gen.Params.FeeWhitelist = append(gen.Params.FeeWhitelist, w.ustr[r.Intn(len(w.ustr))])
+		}
+	}
 	for i := 0; i < ng; i++ {
 		pw := []int64{1, 1, 1, 2, 5}[r.Intn(5)] // a genesis may give validators other powers than the 1 that MsgAddValidator assigns
 		v := mkValidator(w.valPool[i], pw)
@@ -1357,7 +1363,10 @@ func (w *l2World) registerPlan(bc blockCtx) *core.Violation {
 			}
 		}
 	}
-	nexec := 1 + r.Intn(3)
+	nexec := r.Intn(4) // a plan may name no executors at all: nobody is executor afterwards
+	if w.l1Rcpts != nil && nexec == 0 {
+		nexec = 1 // (not in a two-chain world, whose relayers must be able to drain the bridge at the end)
+	}
 	var execs []string
 	for i := 0; i < nexec; i++ {
 		execs = append(execs, spell(r, node.AddrN("executor", r.Intn(5)).String()))
